@@ -1441,6 +1441,19 @@ class NetCDFWrite(IOWrite):
         axes = self.implementation.get_construct_data_axes(f, coord_key)
         for clim_axis in self.implementation.climatological_time_axes(f):
             if (clim_axis,) == axes:
+                if not coord.is_climatology() and any(
+                    c.is_climatology()
+                    for key, c in self.implementation.get_coordinates(
+                        f
+                    ).items()
+                    if self.implementation.get_construct_data_axes(f, key)
+                    == axes
+                ):
+                    # Another coordinate construct of this axis
+                    # holds the climatological bounds; this one has
+                    # ordinary cell bounds
+                    break
+
                 logger.info(
                     "    Setting climatological bounds"
                 )  # pragma: no cover
